@@ -16,8 +16,3 @@ func VerifLex(s []rune) (typ string, val string, n int) {
 func VerifLoad(cmdline, environ, envprefix []string, props *properties.Properties) (*Config, error) {
 	return load(cmdline, environ, envprefix, props)
 }
-
-// VerifParse is config.parse: the arguments config.Load strips before the flag set sees them.
-func VerifParse(args []string) (cmdline []string, path string, version bool, err error) {
-	return parse(args)
-}
